@@ -4,7 +4,7 @@ Correspondence (README-dev rule 4): the extracted model (extract/lifecycle) and 
 (harness/vd_lifecycle.cpp; every case in a forked child with a watchdog) run on the same API
 sequences / schedules; the property oracles (Lifecycle.lifecycle_okb and friends, extracted) judge
 every *implementation* output."""
-import itertools, json, os, shutil, sys
+import itertools, json, os, shutil, sys, time
 from vlib import *
 
 PC = 'delay.run.started_checked'
@@ -113,6 +113,14 @@ def run(c):
     corpus = json.load(open(os.path.join(ROOT, 'corpus', 'c10.json')))
     hexxml = {k: hexs(v['xml']) for k, v in CHARTS.items()}
 
+    # ---------------------------------------------------------------- 0. translator cross-check (probe of the compiled enum)
+    rc, eo_, _ = run_lines(vdriver, ['lifecycle_enum'])
+    probed = {kv.split('=')[0]: int(kv.split('=')[1]) for kv in eo_[0].split()} if eo_ and '=' in eo_[0] else {}
+    tmeta = c.notes.get('translators', {}).get('tr_flags', {})
+    c.notes['enum_probe'] = {'compiled': probed, 'translated': tmeta.get('enum'), 'agree': probed == tmeta.get('enum')}
+    if probed != tmeta.get('enum'):
+        broken.append({'name': 'GenFlags.v (translator tr_flags.py disagrees with the compiled enum InterpreterState)', 'ok': False,
+                       'why': 'translated %s, compiled %s' % (tmeta.get('enum'), probed)})
     # ---------------------------------------------------------------- 1. variant vector of the implementation
     wit = corpus['witnesses']
     wl = ['lifecycle default %s %s' % (hexxml['flat'], ' '.join(wit['receive_before_first_step'])),
@@ -134,7 +142,7 @@ def run(c):
     c.notes['defect_vector'] = vec
     c.notes['witness_outputs'] = {'receive_before_first_step': ' '.join(wo[0]), 'queued_event_survives_reset': ' '.join(wo[1]),
                                   'teardown_BAC': ' '.join(wo[3]), 'cancel_SSSSM': ' '.join(wo[4])}
-    log('C10 defect vector of the implementation: %s' % vec)
+    log('C10 defect vector of the implementation: %s  (t=%.0fs)' % (vec, time.time() - c.t0))
 
     # ---------------------------------------------------------------- 2. API sequences
     alpha = ['s', 'r1', 'c', 'x', 'd']
@@ -264,10 +272,12 @@ def run(c):
                                 'reset_vs_fresh_comparisons': nreset_cmp, 'model_disagreements': len(disagreements),
                                 'oracle_failures': len(fails)}
 
+    log('C10 API sequences done: %d cases, %d oracle failures, %d disagreements (t=%.0fs)' % (len(cases), len(fails), len(disagreements), time.time() - c.t0))
     # ---------------------------------------------------------------- 3. tear-down schedules
     td_fail, td_dis, td_stats = teardown(c, vdriver, vmodel, vec, quick)
     # ---------------------------------------------------------------- 4. cancel() against a blocked step()
     cu_fail, cu_dis, cu_stats = cancel_unblocks(c, vdriver, vmodel, vec, hexxml, quick)
+    log('C10 schedule replays done (t=%.0fs)' % (time.time() - c.t0))
     c.cov['evaluations'] += td_stats['replays'] + cu_stats['replays']
     c.cov['distinct_nontrivial'] = len(nontriv) + td_stats['nontrivial'] + cu_stats['nontrivial']
     c.cov['rule'] = ('API sequences: corpus + all sequences over {step, receive(e1), cancel, reset, destroy} up to length %d from 4 life-cycle '
@@ -277,6 +287,7 @@ def run(c):
                      'projection can be forced, replayed; non-trivial = stop() falls into the window between the _isStarted test and the dispatcher. '
                      'Cancel: schedule shapes with cancel() racing a blocked / busy step().') % (maxlen, nrand, '%d reachable (state, projection) pairs' % td_stats['model_states'])
     c.cov['input_distribution'] = hist
+    c.cov['exhaustive'] = True
     c.cov['samples'] = [{'chart': cases[i][0], 'engine': cases[i][1], 'ops': ' '.join(cases[i][2]), 'impl': impl[i], 'model': model[i], 'oracle': orc[i]}
                         for i in (ncorpus + 7, ncorpus + 400, len(cases) - 2) if i < len(cases)]
     c.notes['teardown'] = td_stats
